@@ -52,6 +52,8 @@ def jv_to_py(v):
         return n // 10 if n % 10 == 0 else n / 10
     if j == "str":
         return v["s"]
+    if j == "big":
+        return int(v["s"])      # an integer beyond TLC's 32 bits: exact decimal text (Semantics!JBig, C12)
     if j == "arr":
         return [jv_to_py(x) for x in v["xs"]]
     if j == "obj":
@@ -69,6 +71,10 @@ def py_to_jv(x):
         return {"j": "null"}
     if isinstance(x, bool):
         return {"j": "bool", "b": x}
+    if isinstance(x, int) and abs(x) > 10 ** 8:
+        return {"j": "big", "s": str(x)}
+    if isinstance(x, float) and abs(x) > 10 ** 8 and x == int(x):
+        return {"j": "big", "s": str(int(x))}       # a float64 spelling of a big integer: whatever it rounds to
     if isinstance(x, (int, float)):
         n = x * 10
         if isinstance(n, float):
